@@ -42,7 +42,9 @@ fn cmp_with(kind: &str, x: &Outcome, a_rules: &[String], b_rules: &[String], a_w
         else {
             let desc_a = format!("{}{}", a_rules.join(" ;; "), if a_al.0.is_empty() && a_al.1.is_empty() { String::new() } else { format!(" [into {:?} from {:?}]", a_al.0, a_al.1) });
             let desc_b = format!("{}{}", b_rules.join(" ;; "), if b_al.0.is_empty() && b_al.1.is_empty() { String::new() } else { format!(" [into {:?} from {:?}]", b_al.0, b_al.1) });
-            acc.viols.push(Viol { key: format!("{}|{} ~ {}|{} ~ {}", kind, desc_a, desc_b, a_words[i], b_words[i]), desc: format!("`{}` on `{}` gives {}, its respelling `{}` on `{}` gives {}", desc_a, a_words[i], x[i], desc_b, b_words[i], y[i]),
+            // word respellings are keyed by the word pair alone (the rule list does not matter to the finding)
+            let key = if kind.starts_with("word-") { format!("{}|{} ~ {}", kind, a_words[i], b_words[i]) } else { format!("{}|{} ~ {}|{} ~ {}", kind, desc_a, desc_b, a_words[i], b_words[i]) };
+            acc.viols.push(Viol { key, desc: format!("`{}` on `{}` gives {}, its respelling `{}` on `{}` gives {}", desc_a, a_words[i], x[i], desc_b, b_words[i], y[i]),
                 case: json!({"kind": kind, "a_rules": a_rules, "b_rules": b_rules, "a_word": a_words[i], "b_word": b_words[i], "a_into": a_al.0, "a_from": a_al.1, "b_into": b_al.0, "b_from": b_al.1}) });
         }
     }
@@ -67,7 +69,7 @@ fn renumber(rule: &str, to: &str) -> String {
         match c { '(' => paren += 1, ')' => paren -= 1, '[' => square += 1, ']' => square -= 1, _ => {} }
         let prev = if i > 0 { cs[i - 1] } else { ' ' };
         let next = if i + 1 < cs.len() { cs[i + 1] } else { ' ' };
-        if c == '1' && paren == 0 && square == 0 && !prev.is_ascii_digit() && !next.is_ascii_digit() && (prev == '=' || prev == ' ' || prev == ',' || prev == '_' || prev == '{') { out.push_str(to); } else { out.push(c); }
+        if c == '1' && paren == 0 && square == 0 && !prev.is_ascii_digit() && !next.is_ascii_digit() && prev != ':' { out.push_str(to); } else { out.push(c); }
     }
     out
 }
@@ -82,7 +84,9 @@ fn space_out_matrices(s: &str) -> Option<String> {
         let c = cs[i];
         if c == '[' { depth += 1; }
         if depth > 0 && cs[i..].starts_with(&['t', 'o', 'n', 'e']) { while i < cs.len() && cs[i] != ',' && cs[i] != ']' { out.push(cs[i]); i += 1; } out.push(' '); continue; }
-        if depth > 0 && c != ' ' { out.push(c); out.push(' '); } else { out.push(c); }
+        // `-α` / `-A` stays together: after `- ` a capital is read as a (capitalised) feature or node name, e.g. `- PHR` in the test suite
+        let keeps_next = c == '-' && i + 1 < cs.len() && (cs[i + 1].is_ascii_uppercase() || ('α'..='ω').contains(&cs[i + 1]));
+        if depth > 0 && c != ' ' && !keeps_next { out.push(c); out.push(' '); } else { out.push(c); }
         if c == ']' { depth -= 1; }
         i += 1;
     }
@@ -101,6 +105,8 @@ pub fn run() -> i32 {
     // ---- operators on generated rules
     // insertion rules without a context either are rejected or loop (C02 findings): nothing to compare there
     let mut rules: Vec<String> = rulegen::rulegen(3).into_iter().filter(|x| !(x.is_insertion() && x.ctx.is_empty() && x.special.is_none())).map(|x| x.text()).collect();
+    // hand-written shapes the generator does not produce: empty environments, joined underlines, insertion / deletion / metathesis with both clauses
+    for x in ["a > e / _", "a > e / ___", "a > e | _", "a > * / _", "t a > & / _", "a > e / _ | t_", "* > e / _# | t_", "a > * / _# | t_", "a, t > e, d / _, _#", "a > e / _,#"] { rules.push(x.to_string()); }
     if thorough { rules.extend(super::c02::corpus()); }
     par_fold(rules.len(), 32, Acc::default, |i, a| {
         let rule = &rules[i];
@@ -153,7 +159,7 @@ pub fn run() -> i32 {
     let wrules: Vec<Vec<String>> = vec![vec![], vec!["a > e".into()], vec!["V:[+long] > [-long]".into(), "C > [+voice] / V_V".into()], vec!["% > [tone:5] / _#".into()], vec!["[+cons, -voice] > [+cont]".into()], vec!["n > ɲ / _i".into(), "t > t͡s / _a".into()]];
     let pairs: Vec<(&str, &str, &str)> = vec![
         ("stress", "ˈta.pa", "'ta.pa"), ("stress", "ˈma.ɲa", "'ma.ɲa"), ("secondary", "ˌɬa.ta", ",ɬa.ta"), ("length", "t͡saː", "t͡sa:"), ("length-break", "d͡ɮaː.ta", "d͡ɮa;ta"), ("stress", "ˈka.ni", "'ka.ni"), ("length", "taː.ni", "ta:.ni"), ("stress", "taˈpa", "ta'pa"), ("secondary", "ˌta.pa", ",ta.pa"), ("secondary", "ˈtaˌpa", "'ta,pa"), ("length", "taː.pa", "ta:.pa"), ("length", "taːː", "ta::"), ("length-break", "taː.pa", "ta;pa"),
-        ("doubled", "taː", "taa"), ("doubled", "tːa", "tta"), ("doubled", "taːːp", "taaap"), ("tie", "t͡sa", "t^sa"), ("tie", "a.d͡ʒa", "a.d^ʒa"),
+        ("doubled", "taː", "taa"), ("doubled", "tːa", "tta"), ("doubled", "taːːp", "taaap"), ("tie", "t͡sa", "t^sa"), ("tie", "a.d͡ʒa", "a.d^ʒa"), ("undertie", "t͡sa", "t͜sa"), ("undertie", "a.d͡ʒa", "a.d͜ʒa"),
         ("alias", "ɡa", "ga"), ("alias", "ʔa", "?a"), ("alias", "ŋǃa", "ŋ!a"), ("alias", "ə", "ǝ"), ("alias", "ɸa", "φa"), ("alias", "ʃa", "Sa"), ("alias", "ʒa", "Za"), ("alias", "ɕa", "Ca"), ("alias", "ɢa", "Ga"), ("alias", "ɴa", "Na"), ("alias", "ʙa", "Ba"), ("alias", "ʀa", "Ra"), ("alias", "χa", "Xa"), ("alias", "ʜa", "Ha"), ("alias", "pɐ", "pA"), ("alias", "pɛ", "pE"), ("alias", "pɪ", "pI"), ("alias", "pɔ", "pO"), ("alias", "pʊ", "pU"), ("alias", "pʏ", "pY"),
         ("alias", "ɡ͡ba", "g͡ba"), ("alias", "aɡ.ʃa", "ag.Sa"),
     ];
